@@ -206,7 +206,7 @@ PROPS = {
         technique="Lean 4 proof (invariant by induction over operation sequences, omega arithmetic) + differential correspondence on op sequences",
     ),
     "C19": dict(
-        modules=["Copia.Props.C19", "Copia.Props.C19b"], namespaces=["Copia.C19"], runner=["rust", "bb"], bb_module="bb_oneway",
+        modules=["Copia.Props.C19", "Copia.Props.C19b", "Copia.Props.C19c"], namespaces=["Copia.C19"], runner=["rust", "bb"], bb_module="bb_oneway",
         assumptions=COMMON_ASSUME + [
             "paths are valid UTF-8 and normalised relative paths (what `discover_local_files` / `find` produce): `to_string_lossy` and non-canonical PathBuf keys such as `./k` are outside the model",
             "glob_match is modelled in suffix form (a data refinement of the index loop with the same branch order); the index loop itself is tied by the exhaustive correspondence",
